@@ -574,6 +574,11 @@ def _opaque_leaves(e, acc: dict):
     """Maximal value-opaque sub-terms of e (in canonical form), to be given independent numeric values."""
     if e.is_Number or e in (sp.pi, sp.E, sp.I):
         return
+    if getattr(e, "func", None) == F_POW:
+        # an opaque power stands for base**exponent: a numeric one is a CONSTANT (it has a value, it cannot be assigned one)
+        for a in e.args:
+            _opaque_leaves(a, acc)
+        return
     if isinstance(e, (sp.Symbol, SymQuantity, sp.Indexed, sp.Idx, AppliedUndef, sp.Derivative, sp.Integral, sp.Subs)):
         acc.setdefault(e, None)
         return
@@ -601,9 +606,10 @@ def witness(a, b, seed: int = 0, tries: int = 40):
             if not positive and rng.random() < 0.5 and not getattr(k, "is_positive", False):
                 v = -v
             pt[k] = v
+        unopaque = lambda x: x.replace(lambda t_: getattr(t_, "func", None) == F_POW, lambda t_: sp.Pow(*t_.args))
         try:
-            va = complex(sp.N(_prep(a).xreplace(pt), 30))
-            vb = complex(sp.N(_prep(b).xreplace(pt), 30))
+            va = complex(sp.N(unopaque(_prep(a).xreplace(pt)), 30))
+            vb = complex(sp.N(unopaque(_prep(b).xreplace(pt)), 30))
         except Exception:
             continue
         if va != va or vb != vb:
@@ -1867,7 +1873,10 @@ def replay(kind: str, spec: dict):
         print(f"rendering {s!r} reads back to the original value")
         return
     if w is None:
-        raise AssertionError(f"rendering {s!r} reads as {show(pair[0])}, original {show(pair[1])} (no concrete point found)")
+        # same rule as validate(): without a concrete point at which the values differ there is no verdict
+        print(f"rendering {s!r} reads as {show(pair[0])}, original {show(pair[1])}: not proved equal, but no concrete point at which "
+              "the values differ was found -- undecided, not a reproduction")
+        return
     raise AssertionError(f"rendering {s!r} reads as {show(pair[0])}, original {show(pair[1])}; at {w[0]} "
                          f"read={w[1]:.12g} original={w[2]:.12g}")
 
